@@ -4,7 +4,7 @@ From V Require Import C11.Model.
 From stdpp Require Import gmap.
 From Coq Require Import ZArith List.
 From V Require Import Base.Codec Base.Res Base.ResCodec Sched.LedgerModel Sched.StmtModel Sched.LedgerCodec
-                      Sched.GangModel Sched.CycleModel Sched.CycleCodec C04.Model C04.Placed C04.PlacedRun.
+                      Sched.GangModel Sched.CycleModel Sched.CycleCodec Sched.LedgerInv C04.Model C04.Placed C04.PlacedRun.
 Import ListNotations.
 Open Scope Z_scope.
 
@@ -108,6 +108,14 @@ Definition sess_of (sp : spec) : sess :=
   upd_faults (build (sp_eps sp) (sp_nodes sp) (map fst (sp_jobs sp)) (sp_tasks sp))
              ∅ ∅ (list_to_set (sp_refuse sp)) true.
 
+Definition ledgers_okb (s : sess) : bool :=
+  ledger_okb (heap s) (jobs s) (nodes s) &&
+  forallb (fun jid =>
+     res_eqvb (default empty_res (hshare s !! jid))
+              (sum_req (filter (fun t => bool_decide (t_job t = jid) && allocated_status (t_status t))
+                               (map snd (map_to_list (heap s))))))
+          (elements (dom (jobs s) ∪ dom (hshare s))).
+
 (* per-choice observables: verdict, handler calls in order, evictor calls (sorted) *)
 Definition eStep (s s' : sess) (v : Z) : list Z :=
   [-101; v] ++
@@ -130,7 +138,11 @@ Definition run_case (c : c04_case) : list Z :=
   let sp := cs_spec c in
   let '(out, sf) := run_choices (sp_eps sp) (env_of sp (cs_lims c) (cs_clims c)) (sess_of sp) (cs_choices c) in
   (* -104: the well-formedness hypothesis of the final-session theorems, checked on the session the case starts from *)
-  out ++ [-102] ++ eFinal sf ++ [-104] ++ eBool (wfb (sess_of sp)).
+  out ++ [-102] ++ eFinal sf ++ [-104] ++ eBool (wfb (sess_of sp)) ++
+  (* -105: the ledgers the votes read ARE sums over the pods in the session the case starts from: status index =
+     the tasks' statuses, job / node ledgers = sums of requests (Sched.LedgerInv.ledger_okb), and the handler
+     ledger of every job = the requests of its tasks in an AllocatedStatus *)
+  [-105] ++ eBool (ledgers_okb (sess_of sp)).
 
 (* ---- the vote alone: ssn.Preemptable / ssn.Reclaimable on an arbitrary candidate list ---- *)
 Record vote_case := mkVC { vc_spec : spec; vc_lims : list qlim_spec; vc_clims : list clim_spec; vc_reclaim : bool;
